@@ -120,6 +120,14 @@ type Conn struct {
 	tripped FaultKind
 	// FaultsHit counts faults that actually fired.
 	FaultsHit int
+	// ClearDawdle makes a deadline call that CLEARS the deadline (zero time) take this long.
+	ClearDawdle time.Duration
+	// LenientDeadlines: deadline calls succeed even on a closed connection (transports that
+	// do not implement deadlines accept and ignore them).
+	LenientDeadlines bool
+	// OnCounted, if set, is called (under the lock) with the index of every counted operation
+	// before it executes; it must not block (used to cancel a context at a chosen point).
+	OnCounted func(idx int)
 
 	// OnWrite, if set, is called (under the lock) after every accepted Write with
 	// all bytes written so far; the chunks it returns are appended to the script.
@@ -172,6 +180,9 @@ func (c *Conn) fault(k OpKind) FaultKind {
 	}
 	idx := c.counted
 	c.counted++
+	if c.OnCounted != nil {
+		c.OnCounted(idx)
+	}
 	if c.Sticky && c.tripped != FaultNone {
 		return c.tripped
 	}
@@ -329,6 +340,9 @@ func (c *Conn) Write(p []byte) (int, error) {
 }
 
 func (c *Conn) deadline(k OpKind, t time.Time) error {
+	if d := c.ClearDawdle; d > 0 && t.IsZero() {
+		time.Sleep(d)
+	}
 	c.mu.Lock()
 	defer c.mu.Unlock()
 	if k == OpSetWriteDeadline && c.inWrite > 0 {
@@ -346,6 +360,10 @@ func (c *Conn) deadline(k OpKind, t time.Time) error {
 		return err
 	}
 	if c.closed {
+		if c.LenientDeadlines {
+			c.log(Op{Kind: k, T: t})
+			return nil
+		}
 		c.log(Op{Kind: k, T: t, Err: ErrClosed})
 		return ErrClosed
 	}
